@@ -47,6 +47,14 @@ def check_allocator(ctx: Ctx, chk, f, V: str) -> None:
     cn = Canon(I, f)
     g = CFG(f.node)
     max_id = I.folder.plain(I.folder.const(ctx.module("aiomysensors.model.const"), "MAX_NODE_ID"))
+    # the statement's own number: ids 1..254 can be handed out (255 is the broadcast address)
+    chk.rule("RANGE-1", "every id that can be handed out lies in 1..254, and 254 itself can be handed out")
+    chk.instance("RANGE-1")
+    cm = ctx.module("aiomysensors.model.const")
+    if max_id == 254:
+        chk.ok("RANGE-1", "aiomysensors.model.const.MAX_NODE_ID", "MAX_NODE_ID folds to 254", cm.relpath, sample=False)
+    else:
+        chk.refute("RANGE-1", "aiomysensors.model.const.MAX_NODE_ID", f"MAX_NODE_ID evaluates to {max_id!r}, the statement's highest node id is 254: {'the too-many-nodes error is raised while id ' + str(max_id + 1) + '..254 are still free' if isinstance(max_id, int) and max_id < 254 else 'ids outside 1..254 can be handed out'}", cm.relpath)
     # ---- locate the id variable: the key of the store into gateway.nodes
     stores = [n for n in ctx.own_nodes(f) if isinstance(n, ast.Assign) and any(isinstance(t, ast.Subscript) and norm(t.value) == "gateway.nodes" for t in n.targets)]
     if len(stores) != 1:
@@ -380,6 +388,11 @@ def fresh_shape(e: ast.expr):
             return False, "max() of an empty registry raises ValueError: the empty case is not handled"
     if isinstance(e, ast.Call) and norm(e.func) == "len":
         return False, "a count-based id collides with registered ids"
+    # "the key inserted last" is not the highest key: next(reversed(d)), list(d)[-1], d.popitem(), tuple(d)[-1] ...
+    txt_all = norm(e)
+    for pat in ("reversed(gateway.nodes", "list(gateway.nodes)[-1]", "tuple(gateway.nodes)[-1]", "[*gateway.nodes][-1]", "list(gateway.nodes.keys())[-1]", "gateway.nodes.popitem"):
+        if pat in txt_all:
+            return False, "the id is derived from the key inserted last, which is the highest one only while nodes register in ascending order: a statically addressed node 11 presenting before node 10 makes 11 be handed out although it is registered"
     if isinstance(e, ast.Call) and norm(e.func) == "max" and len(e.args) >= 1:
         return False, "max(registered) is itself a registered id"
     return None, ""
